@@ -1991,6 +1991,12 @@ func runC12(c *lib.Ctx) {
 			if t[0] == 'M' && strings.HasPrefix(model[j], "?") {
 				c.Ev.Count("ambiguous_initargs", 1)
 			}
+			if t[0] == 'M' && strings.HasPrefix(model[j], "~") {
+				c.Ev.Count("unconstrained_inherited_default_initargs", 1)
+			}
+			if t[0] == 'D' && strings.Count(t, ":") == 4 {
+				c.Ev.Count("defclass_forms_with_default_initargs", 1)
+			}
 		}
 		if i%(len(progs)/10+1) == 0 {
 			c.Ev.Sample(map[string]any{"program": strings.Join(p.toks, " "), "impl": strings.Join(runs[0], " "), "model": strings.Join(model, " ")})
